@@ -55,3 +55,10 @@ Print Assumptions C06_fresh_iterator_mode0.
 Theorem C06_compiled_modes_ok : forall tbl modes, modes_okb modes = true -> sc_ok (impl_scanner tbl modes) (length modes).
 Proof. intros tbl modes H. apply impl_scanner_ok, modes_okb_ok, H. Qed.
 Print Assumptions C06_compiled_modes_ok.
+
+(* the transition table of a built mode is the configured one *)
+From Scnr Require Import Nfa Compile EndToEnd EndToEnd2.
+Theorem C06_built_transitions_are_configured :
+  forall m cm, build_mode m = Some cm -> mtrans cm = s_trans m.
+Proof. exact build_mode_trans. Qed.
+Print Assumptions C06_built_transitions_are_configured.
